@@ -2,8 +2,9 @@
    the tokens, either quote character and any escapes in quoted strings, any spelling of integers and decimals the token
    rules accept, trailing commas in lists, dictionaries and argument lists -- parses to what the tokens denote. *)
 From Coq Require Import NArith ZArith List Bool Lia.
-From MP Require Import Model.Lexer Gen.GenGrammar Model.Parser Model.Serial Proofs.LexProofs Proofs.SerialProofs Proofs.LrComplete Proofs.LexSerial.
-From MP Require Import Proofs.Layout Proofs.Surface.
+From MP Require Import Model.Lexer Gen.GenGrammar Model.Parser Model.Serial Proofs.LexProofs Proofs.SerialProofs.
+From MP Require Import Proofs.LexSerial Proofs.Layout.
+From MP Require Import Proofs.LrComplete Proofs.Surface.
 Import ListNotations.
 Close Scope string_scope.
 Open Scope N_scope.
@@ -62,7 +63,7 @@ Fixpoint xval_lex (v : xval) : bool := match v with XLeaf a => leaf_lex a | XLis
 Definition xpair_lex (p : text * xleaf) : bool := str_lexeme (fst p) && leaf_lex (snd p).
 Definition xarg_lex (x : text * xarg) : bool :=
   is_ident (fst x) && match snd x with XAVal v => xval_lex v | XADict p ps _ => forallb xpair_lex (p :: ps) end.
-Definition xcmd_lex (c : xcmd) : bool := is_ident (xc_result c) && is_ident (xc_name c) && forallb xarg_lex (xc_args c).
+Definition xcmd_lex (c : xcmd) : bool := match xc_result c with Some r => is_ident r | None => true end && is_ident (xc_name c) && forallb xarg_lex (xc_args c).
 Ltac punct := cbn [In]; tauto.
 Lemma leaf_delim a : leaf_lex a = true -> delimited (lk a).
 Proof. destruct a as [lx|lx|lx|lx]; cbn [leaf_lex lk]; intros W; [apply delim_str | apply delim_intlx | apply delim_float | apply delim_ident]; exact W. Qed.
@@ -83,16 +84,19 @@ Proof. unfold xarg_lex, tkx_arg. intros W. apply andb_true_iff in W as [W1 W2]. 
   constructor; [apply delim_punct; punct|]. apply Forall_app. split; [|constructor; [apply delim_punct; punct | constructor]].
   apply tkj_delim. rewrite Forall_map. rewrite forallb_forall in W2. rewrite Forall_forall. intros q Hq. apply xpair_delim, W2, Hq. Qed.
 Lemma xcmd_delim c : xcmd_lex c = true -> Forall delimited (tkx_cmd c).
-Proof. unfold xcmd_lex, tkx_cmd. intros W. apply andb_true_iff in W as [W W3]. apply andb_true_iff in W as [W1 W2].
-  constructor; [apply delim_ident; exact W1|]. constructor; [apply delim_punct; punct|]. constructor; [apply delim_ident; exact W2|]. constructor; [apply delim_punct; punct|].
-  apply Forall_app. split; [|constructor; [apply delim_punct; punct | constructor]].
-  apply tkj_delim. rewrite Forall_map. rewrite forallb_forall in W3. rewrite Forall_forall. intros x Hx. apply xarg_delim, W3, Hx. Qed.
+Proof. unfold xcmd_lex, tkx_cmd, tkx_head. intros W. apply andb_true_iff in W as [W W3]. apply andb_true_iff in W as [W1 W2].
+  assert (T : Forall delimited (tkj (xc_trail c) (map tkx_arg (xc_args c)) ++ [rpt])).
+  { apply Forall_app. split; [|constructor; [apply delim_punct; punct | constructor]].
+    apply tkj_delim. rewrite Forall_map. rewrite forallb_forall in W3. rewrite Forall_forall. intros x Hx. apply xarg_delim, W3, Hx. }
+  destruct (xc_result c) as [r|]; cbn [app].
+  - constructor; [apply delim_ident; exact W1|]. constructor; [apply delim_punct; punct|]. constructor; [apply delim_ident; exact W2|]. constructor; [apply delim_punct; punct | exact T].
+  - constructor; [apply delim_ident; exact W2|]. constructor; [apply delim_punct; punct | exact T]. Qed.
 Lemma xprogram_delim p : forallb xcmd_lex p = true -> Forall delimited (tkx_program p).
 Proof. induction p as [|c p IH]; intros W; [constructor|]. cbn [forallb] in W. apply andb_true_iff in W as [W1 W2].
   cbn [tkx_program flat_map]. apply Forall_app. split; [apply xcmd_delim; exact W1 | apply IH; exact W2]. Qed.
 
 Theorem xparse_of_lexes fs p s : p <> [] -> forallb xcmd_ok p = true -> lexes s (tkx_program p) ->
-  exists pp, parse fs s = POk pp /\ pp_version pp = 3 /\ Forall2 xcmd_matches p (pp_cmds pp).
+  exists pp, parse fs s = POk pp /\ pp_version pp = xversion p /\ Forall2 xcmd_matches p (pp_cmds pp).
 Proof. intros Hp W Hl.
   destruct (lexes_lex _ _ Hl (S (length s)) 1 0%nat (Nat.lt_succ_diag_r _)) as (toks & E & M).
   set (d := {| t_kind := KID; t_lexeme := []; t_line := 0; t_pos := 0%nat |}).
@@ -105,7 +109,7 @@ Qed.
    denotation of its tokens *)
 Theorem surface_layout fs p gaps final : p <> [] -> forallb xcmd_ok p = true -> forallb xcmd_lex p = true ->
   length gaps = length (tkx_program p) -> Forall isgap gaps -> lexes final [] -> lay_ok (combine gaps (tkx_program p)) final ->
-  exists pp, parse fs (lay (combine gaps (tkx_program p)) final) = POk pp /\ pp_version pp = 3 /\ Forall2 xcmd_matches p (pp_cmds pp).
+  exists pp, parse fs (lay (combine gaps (tkx_program p)) final) = POk pp /\ pp_version pp = xversion p /\ Forall2 xcmd_matches p (pp_cmds pp).
 Proof. intros Hp W WL Hlen Hg Hf Hok. apply xparse_of_lexes; [exact Hp | exact W|].
   assert (M : map snd (combine gaps (tkx_program p)) = tkx_program p).
   { clear - Hlen. revert gaps Hlen. induction (tkx_program p) as [|x t IH]; intros [|g gs] H; try discriminate; [reflexivity|]. cbn. f_equal. apply IH. cbn in H. lia. }
@@ -115,12 +119,16 @@ Proof. intros Hp W WL Hlen Hg Hf Hok. apply xparse_of_lexes; [exact Hp | exact W
 
 (* two renderings with the same denotation parse to the same program (lines apart) *)
 Definition erase_cmd (x : pcmd) := (pc_result x, pc_cmd x, map (fun a => (pa_name a, erase_e (pa_value a))) (pc_args x)).
-Definition xcmd_den (c : xcmd) := (Some (xc_result c), xc_name c, map (fun x : text * xarg => (fst x, PE (xaexp (snd x)) 0)) (xc_args c)).
+Definition xcmd_den (c : xcmd) := (xc_result c, xc_name c, map (fun x : text * xarg => (fst x, PE (xaexp (snd x)) 0)) (xc_args c)).
 Lemma matches_den c x : xcmd_matches c x -> erase_cmd x = xcmd_den c.
 Proof. intros (A & B & C). unfold erase_cmd, xcmd_den. rewrite A, B. f_equal.
   induction C as [|a b l l' [H1 H2] _ IH]; [reflexivity|]. cbn [map]. rewrite H1, H2, IH. reflexivity. Qed.
 Lemma matches_dens p cs : Forall2 xcmd_matches p cs -> map erase_cmd cs = map xcmd_den p.
 Proof. induction 1 as [|c x p cs H _ IH]; [reflexivity|]. cbn [map]. rewrite (matches_den c x H), IH. reflexivity. Qed.
+Lemma den_version : forall p1 p2, map xcmd_den p1 = map xcmd_den p2 -> xversion p1 = xversion p2.
+Proof. intros p1 p2 H. unfold xversion. replace (existsb is2 p2) with (existsb is2 p1); [reflexivity|].
+  revert p2 H. induction p1 as [|c p1 IH]; intros [|c2 p2] H; try discriminate; [reflexivity|]. cbn [map] in H. inversion H as [[H1 H2 H3 H4]].
+  cbn [existsb]. rewrite (IH p2 H4). unfold is2. rewrite H1. reflexivity. Qed.
 Corollary same_denotation fs p1 p2 g1 g2 f1 f2 :
   p1 <> [] -> forallb xcmd_ok p1 = true -> forallb xcmd_lex p1 = true -> length g1 = length (tkx_program p1) -> Forall isgap g1 -> lexes f1 [] -> lay_ok (combine g1 (tkx_program p1)) f1 ->
   p2 <> [] -> forallb xcmd_ok p2 = true -> forallb xcmd_lex p2 = true -> length g2 = length (tkx_program p2) -> Forall isgap g2 -> lexes f2 [] -> lay_ok (combine g2 (tkx_program p2)) f2 ->
@@ -130,14 +138,14 @@ Corollary same_denotation fs p1 p2 g1 g2 f1 f2 :
 Proof. intros A1 A2 A3 A4 A5 A6 A7 B1 B2 B3 B4 B5 B6 B7 Hd.
   destruct (surface_layout fs p1 g1 f1 A1 A2 A3 A4 A5 A6 A7) as (pp1 & E1 & V1 & M1).
   destruct (surface_layout fs p2 g2 f2 B1 B2 B3 B4 B5 B6 B7) as (pp2 & E2 & V2 & M2).
-  exists pp1, pp2. repeat split; [exact E1 | exact E2 | | congruence]. rewrite (matches_dens _ _ M1), (matches_dens _ _ M2). exact Hd. Qed.
+  exists pp1, pp2. repeat split; [exact E1 | exact E2 | | rewrite V1, V2; apply den_version; exact Hd]. rewrite (matches_dens _ _ M1), (matches_dens _ _ M2). exact Hd. Qed.
 
 (* the same with every hypothesis a computable boolean *)
 Definition surface_okb (p : list xcmd) (gaps : list text) (final : text) : bool :=
   forallb xcmd_ok p && forallb xcmd_lex p && Nat.eqb (length gaps) (length (tkx_program p)) && forallb (gapb false) gaps &&
   finalb false final && lay_okb (combine gaps (tkx_program p)) final.
 Theorem surface_layout_b fs p gaps final : p <> [] -> surface_okb p gaps final = true ->
-  exists pp, parse fs (lay (combine gaps (tkx_program p)) final) = POk pp /\ pp_version pp = 3 /\ Forall2 xcmd_matches p (pp_cmds pp).
+  exists pp, parse fs (lay (combine gaps (tkx_program p)) final) = POk pp /\ pp_version pp = xversion p /\ Forall2 xcmd_matches p (pp_cmds pp).
 Proof. unfold surface_okb. intros Hp H. repeat (apply andb_true_iff in H as [H ?]).
   apply surface_layout; try assumption.
   - apply Nat.eqb_eq. assumption.
